@@ -500,7 +500,9 @@ func numericAffinity(v interface{}, real bool) interface{} {
 		// (it looks numeric: the only possible error is the range, and
 		// then the value is +-Inf, as in SQLite)
 		f, _ := strconv.ParseFloat(s, 64)
-		if !real && f >= -9223372036854775808.0 && f < 9223372036854775808.0 && float64(int64(f)) == f {
+		// (SQLite turns a real into an integer only strictly inside the
+		// int64 range: -2^63 itself stays a real)
+		if !real && f > -9223372036854775808.0 && f < 9223372036854775808.0 && float64(int64(f)) == f {
 			return int64(f)
 		}
 		return f
